@@ -10,7 +10,7 @@ LEVEL = 'model_checking'
 def run(c):
     c.assumptions += [
         'quick-xml is replaced by an environment model producing the same event stream (Start/End/Empty/Text/Comment/Decl, trim_text, local names, attribute unescaping, read_to_end_into spans); the model is validated per run by differential execution: the same rendered documents go through the native build with the real quick-xml and every obligation and observation must agree',
-        'documents are rendered from the statechart catalogue (13 shapes) with one solver-chosen ordinary transition (source, 0..2 targets incl. forward references, type, event spelling, cond), three spellings of the initial configuration, both quote characters, early/late binding; structural choices are concretised path by path (text rendering needs concrete structure), characters inside attribute values are solver variables restricted to ASCII letters and digits',
+        'documents are rendered from the statechart catalogue (15 shapes) with one solver-chosen ordinary transition (source, 0..2 targets incl. forward references, type, event spelling, cond), three spellings of the initial configuration, both quote characters, early/late binding; structural choices are concretised path by path (text rendering needs concrete structure), characters inside attribute values are solver variables restricted to ASCII letters and digits',
         'element harness: data declarations (expr / child text / empty), two invokes (literal and *expr forms, params / content expr / content text, finalize), send (literal and *expr forms) between two raises, donedata; lexical variants: namespace prefix on every element, comments between elements, quote character, entity references in attribute values and element text',
     ]
     c.outside += [
@@ -20,13 +20,13 @@ def run(c):
     ]
     ALL = (401, 402, 403, 404, 405, 406, 407, 408, 409, 410)
     c.run_m('h_c04_struct', expect_checks=ALL, expect_cover=(401,), diff_samples=6,
-            bounds={'shapes': 13, 'transition': 'every conformant (source, <=1 target incl. forward references, type)', 'lexical choices': 'derived from the transition (each value of initial spelling / suffix / quote / binding / event form / cond occurs)'})
+            bounds={'shapes': 15, 'transition': 'every conformant (source, <=1 target incl. forward references, type)', 'lexical choices': 'derived from the transition (each value of initial spelling / suffix / quote / binding / event form / cond occurs)'})
     c.run_m('h_c04_lex', expect_checks=ALL, expect_cover=(401,), diff_samples=6,
             bounds={'shapes': '4 (flat, parallel+history, deep nesting, history in parallel)', 'event form': 5, 'cond': 2, 'initial spelling': 3, 'descriptor suffix': "'', '.', '.*'", 'quotes': 2, 'binding': 2,
                     'symbolic characters': 'one inside an event descriptor, one inside the condition text: any ASCII letter or digit (solver variables)'})
     if c.tier == 'thorough':
-        c.run_m('h_c04_struct2', expect_checks=ALL, expect_cover=(401,), diff_samples=6, bounds={'shapes': 13, 'transition': 'every conformant (source, <=2 targets, type)'})
-        c.run_m('h_c04_lex_all', expect_checks=ALL, expect_cover=(401,), diff_samples=6, bounds={'shapes': 13, 'lexical product': 360, 'symbolic characters': 2})
+        c.run_m('h_c04_struct2', expect_checks=ALL, expect_cover=(401,), diff_samples=6, bounds={'shapes': 15, 'transition': 'every conformant (source, <=2 targets, type)'})
+        c.run_m('h_c04_lex_all', expect_checks=ALL, expect_cover=(401,), diff_samples=6, bounds={'shapes': 15, 'lexical product': 360, 'symbolic characters': 2})
     c.run_m('h_c04_content', expect_checks=(420, 421, 422, 423), expect_cover=(420,), diff_samples=6,
             bounds={'elseif branches': '0..3', 'else': 'with/without', 'elements per branch': '1..2', 'foreach after the if': 'with/without', '<log> without expr before the if': 'with/without'})
     c.run_m('h_c04_descr', expect_checks=(430,), expect_cover=(430,), diff_samples=6, bounds={'spellings': "e, e., e.*, e.*., padded list, *"})
